@@ -173,3 +173,24 @@ Example C18_close_nonvacuous :
   conn_closes (fst (close (fst (close c0)))) = 1 /\ snd (cwrite (fst (close c0)) [2%N]) = RErrConn /\
   snd (cwrite (fst (close (mkcodec false false 0 false []))) [2%N]) = RErrClosed.
 Proof. vm_compute. repeat split; reflexivity. Qed.
+
+(* the hypotheses of C18_reply / C18_reply_error are jointly satisfiable (a toy typed layer
+   over the length-prefixed code), and the theorem then yields concrete results: three
+   calls, the second fails on the server, answered in the order 2, 3, 1, single-byte
+   fragments one way and everything coalesced into a 5-byte read-ahead the other way *)
+Example C18_reply_nonvacuous :
+  let f := fun a : N => if N.eqb a 20 then inr 99%N else inl (a + 1)%N in
+  let args := [10%N; 20%N; 30%N] in
+  let order := [(2, 20%N); (3, 30%N); (1, 10%N)] in
+  ((forall q, conforms toy_complete (shape_of GoRpc) (toy_encQ q) /\ toy_decQ (toy_encQ q) = Some q) /\
+   (forall p, conforms toy_complete (shape_of GoRpc) (toy_encR p) /\ toy_decR (toy_encR p) = Some p)) /\
+  Permutation order (decode_all toy_decQ (fst (server_reads N toy_complete GoRpc toy_encQ 3 0 [1;1;1;1;1;1;1;1;1;1;1;1] args))) /\
+  let c := client_run 3 (decode_all toy_decR
+             (fst (client_reads N N N f toy_complete GoRpc toy_encR 0 5 [] order))) in
+  result_of c 1 = Some (inl 11%N) /\ result_of c 2 = Some (inr 99%N) /\ result_of c 3 = Some (inl 31%N).
+Proof.
+  cbv zeta. split; [exact toy_typed_layer|]. split.
+  - vm_compute. apply Permutation_sym. eapply perm_trans; [apply perm_swap|]. apply perm_skip.
+    apply perm_swap.
+  - vm_compute. repeat split; reflexivity.
+Qed.
